@@ -209,6 +209,9 @@ class Attribute(_BaseAttribute):
     def __getitem__(self, key):
         if key in self._data:
             return self._data[key]
+        if self.elemsize>1:
+            # never hand out the shared default object: in-place edits of it would change every unwritten entry
+            return self.default_value.copy()
         return self.default_value
 
     def __setitem__(self, key, value):
